@@ -169,10 +169,19 @@ def axisPlan (n ph : Nat) (lo hi : Int) : SlicePlan :=
 
 abbrev Pt := Rat × Rat
 
-/-- `bounds[i, j, :, axis]` of `extract_patches_with_slice`: (low, high) rounded corners -/
-def sliceBounds (ph : Nat) (ctr off : Rat) : Int × Int :=
+/-- `bounds[i, j, :, axis]` of `extract_patches_with_slice` as the ORIGINAL tree computed them: both corners rounded
+(half to even).  At a rounding tie with an odd extent the two are `ph ± 1` apart and the slice assignment cannot
+broadcast (refuted by witness in Lemmas/C13Base.lean: `sliceBoundsCoded_tie`); kept for that refutation only. -/
+def sliceBoundsCoded (ph : Nat) (ctr off : Rat) : Int × Int :=
   let c := ctr + halfPixel ph
   (roundHalfEven (c + off + -halfExt ph), roundHalfEven (c + off + halfExt ph))
+
+/-- `bounds[i, j, :, axis]` of `extract_patches_with_slice` (notes/fixes/C13-slice-rounding-tie.diff): the low corner
+is rounded, the high corner is the low corner plus the patch extent
+(`bounds[:, :, 1, :] = bounds[:, :, 0, :] + patch_shape`) -/
+def sliceBounds (ph : Nat) (ctr off : Rat) : Int × Int :=
+  let c := ctr + halfPixel ph
+  (roundHalfEven (c + off + -halfExt ph), roundHalfEven (c + off + -halfExt ph) + (ph : Int))
 
 def slicePlans (H W ph pw : Nat) (ctr off : Pt) : SlicePlan × SlicePlan :=
   let br := sliceBounds ph ctr.1 off.1
